@@ -177,9 +177,17 @@ func socketPairConns() (net.Conn, net.Conn) {
 		if err != nil {
 			panic("fileconn: " + err.Error())
 		}
+		trackConn(c)
 		return c
 	}
 	return mk(fds[0]), mk(fds[1])
+}
+
+// trackConn makes sure a connection object created by the harness is closed through the object when the execution is
+// torn down (never only by descriptor number: its finalizer would close that number again at some later time, when
+// it may belong to a later execution).
+func trackConn(c net.Conn) {
+	vrt.OnCleanup(func() { c.Close() })
 }
 
 // noteConnOwner attributes a connection's descriptor to a process.
